@@ -13,3 +13,5 @@ import MimicProps.C09
 #print axioms MimicProps.C09.kill_closed_noop
 #print axioms MimicProps.C09.known_finding_kill_during_final_drain
 #print axioms MimicProps.C09.kill_guards_shape
+#print axioms MimicProps.C09.kill_is_code
+#print axioms MimicProps.C09.self_kill_is_code
